@@ -235,25 +235,30 @@ def clear (s : State) (h : Nat) : R State :=
 
 /-! ### assignment -/
 
+/-- `if (p) p->AddRef();` -/
+def acqRef (s : State) (p : Nat) : R State := if p ≠ 0 then addRef s p else .ok s
+
+/-- `if (p) p->DelRef();` -/
+def relRef (s : State) (p : Nat) : R State := if p ≠ 0 then delRef s p else .ok s
+
 /-- `operator=(const base_str& text)` -/
 def assignStr (s : State) (h g : Nat) : R State := do
   let q := ptr s g
-  let s ← if q ≠ 0 then addRef s q else .ok s
-  let s ← if ptr s h ≠ 0 then delRef s (ptr s h) else .ok s
+  -- adding the reference before deleting our current reference: safe when copying from ourself
+  let s ← acqRef s q
+  let s ← relRef s (ptr s h)
   .ok { s with hs := s.hs.set h q }
 
 /-- `operator=(base_str&& text)` -/
 def assignMove (s : State) (h g : Nat) : R State := do
-  let s ← if ptr s h ≠ 0 then delRef s (ptr s h) else .ok s
+  let s ← relRef s (ptr s h)
   let s := { s with hs := s.hs.set h (ptr s g) }
   .ok { s with hs := s.hs.set g 0 }
 
 /-- `operator=(const CharT* text)`, `text` not inside the own buffer -/
 def assignText (s : State) (h : Nat) (text : List UInt8) : R State := do
-  let s ← if ptr s h ≠ 0 then do
-      let s ← delRef s (ptr s h)
-      .ok { s with hs := s.hs.set h 0 }
-    else .ok s
+  -- if (m_data) { m_data->DelRef(); m_data = nullptr; }
+  let s ← clear s h
   if text.length ≠ 0 then
     let len := text.length
     let (s, q) := alloc s { refcount := 0, alloced := len + 1, cap := len + 1, len := len, bytes := text }
